@@ -9,6 +9,13 @@ import time
 from . import common as C
 
 
+_GEN = {}     # crate -> {relative path: text} extra generated sources
+
+
+def set_generated(crate, files):
+    _GEN[crate] = files
+
+
 def instantiate(crate, config):
     rc = C.repo_copy()
     d = os.path.join(C.scratch(), "kani_%s_%s" % (crate, config))
@@ -17,6 +24,10 @@ def instantiate(crate, config):
         feats = ", ".join('"%s"' % f for f in C.CONFIGS[config])
         t = open(os.path.join(d, "Cargo.toml.in")).read().replace("@REPO@", rc).replace("@FEATURES@", feats)
         open(os.path.join(d, "Cargo.toml"), "w").write(t)
+    for rel, text in _GEN.get(crate, {}).items():
+        path = os.path.join(d, rel)
+        if not os.path.exists(path) or open(path).read() != text:
+            open(path, "w").write(text)
     return d
 
 
@@ -43,7 +54,8 @@ def parse_result(out):
         res["status"] = "failed"
     for m in re.finditer(r"Status: (UNSATISFIABLE)\s*\n\s*- Description: \"([^\"]*)\"", out):
         res["covers_unsat"].append(m.group(2))
-    res["covers_sat"] = len(re.findall(r"Status: SATISFIED", out))
+    res["covers_sat_desc"] = [m.group(1) for m in re.finditer(r"Status: SATISFIED\s*\n\s*- Description: \"([^\"]*)\"", out)]
+    res["covers_sat"] = len(res["covers_sat_desc"])
     for m in re.finditer(r"Check \d+: ([^\n]*)\n\s*- Status: FAILURE\s*\n\s*- Description: \"([^\"]*)\"(?:\s*\n\s*- Location: ([^\n]*))?", out):
         res["failed_checks"].append({"check": m.group(1), "desc": m.group(2), "loc": (m.group(3) or "").strip()})
     m = re.search(r"Verification Time: ([\d.]+)s", out)
@@ -66,13 +78,19 @@ def run_harness(crate, config, harness, timeout=600, extra_args=(), target_dir=N
     cmd += list(extra_args)
     t0 = time.time()
     pre = "ulimit -v %d; " % (mem_gb * 1024 * 1024)
+    import signal
+    proc = subprocess.Popen(["bash", "-c", pre + "exec " + " ".join("'%s'" % c for c in cmd)], cwd=d,
+                            stdout=subprocess.PIPE, stderr=subprocess.STDOUT, env=C.ENV, start_new_session=True)
     try:
-        p = subprocess.run(["bash", "-c", pre + "exec " + " ".join("'%s'" % c for c in cmd)], cwd=d,
-                           stdout=subprocess.PIPE, stderr=subprocess.STDOUT, timeout=timeout, env=C.ENV)
-        out = p.stdout.decode(errors="replace")
-    except subprocess.TimeoutExpired as e:
-        out = (e.stdout or b"").decode(errors="replace") + "\nTIMEOUT"
-        subprocess.run("pkill -f 'cbmc.*%s' || true" % os.path.basename(d), shell=True)
+        o, _ = proc.communicate(timeout=timeout)
+        out = o.decode(errors="replace")
+    except subprocess.TimeoutExpired:
+        try:
+            os.killpg(proc.pid, signal.SIGKILL)
+        except ProcessLookupError:
+            pass
+        o, _ = proc.communicate()
+        out = (o or b"").decode(errors="replace") + "\nTIMEOUT"
     r = parse_result(out)
     r["harness"] = harness
     r["wall_s"] = time.time() - t0
@@ -83,12 +101,71 @@ def run_harness(crate, config, harness, timeout=600, extra_args=(), target_dir=N
     return r
 
 
+def run_batch(crate, config, harnesses, timeout=600, extra_args=(), target_dir=None, mem_gb=14):
+    """One `cargo kani` invocation for several harnesses (the crate is compiled once); per-harness timeout through
+    Kani's --harness-timeout; the combined output is split at the 'Checking harness' banners."""
+    import signal
+    d = instantiate(crate, config)
+    cmd = ["cargo", "kani", "--exact", "-Z", "unstable-options", "--harness-timeout", "%ds" % timeout]
+    for h in harnesses:
+        cmd += ["--harness", h]
+    feats = [f for f in C.CONFIGS[config] if f in ("compact", "alloc")]
+    if feats:
+        cmd += ["--features", ",".join(feats)]
+    if target_dir:
+        cmd += ["--target-dir", target_dir]
+    cmd += list(extra_args)
+    t0 = time.time()
+    pre = "ulimit -v %d; " % (mem_gb * 1024 * 1024)
+    proc = subprocess.Popen(["bash", "-c", pre + "exec " + " ".join("'%s'" % c for c in cmd)], cwd=d,
+                            stdout=subprocess.PIPE, stderr=subprocess.STDOUT, env=C.ENV, start_new_session=True)
+    total = timeout * len(harnesses) + 600
+    try:
+        o, _ = proc.communicate(timeout=total)
+        out = o.decode(errors="replace")
+    except subprocess.TimeoutExpired:
+        try:
+            os.killpg(proc.pid, signal.SIGKILL)
+        except ProcessLookupError:
+            pass
+        o, _ = proc.communicate()
+        out = (o or b"").decode(errors="replace") + "\nTIMEOUT"
+    wall = time.time() - t0
+    # split per harness
+    segs = {}
+    parts = re.split(r"(?m)^Checking harness ([\w:]+)\.\.\.\s*$", out)
+    preamble = parts[0]
+    for i in range(1, len(parts) - 1, 2):
+        segs[parts[i]] = parts[i + 1]
+    results = []
+    for h in harnesses:
+        seg = segs.get(h)
+        if seg is None:
+            r = {"status": "unknown", "covers_unsat": [], "failed_checks": [], "covers_sat": 0, "covers_sat_desc": [],
+                 "tail": ("harness did not run: " + preamble[-600:] + out[-600:])}
+        else:
+            r = parse_result(seg)
+            r["tail"] = seg[-1500:] if r["status"] != "holds" else ""
+            if r["status"] == "unknown" and ("timed out" in seg.lower() or "timeout" in seg.lower()):
+                r["tail"] = "timeout after %ds" % timeout
+        r["harness"] = h
+        r["wall_s"] = r.get("time_s") or 0.0
+        results.append(r)
+        if os.environ.get("VERIF_VERBOSE"):
+            import sys
+            sys.stderr.write("  kani %-45s %-8s %6.1fs\n" % (h, r["status"], r["wall_s"]))
+    if results:
+        results[0]["batch_wall_s"] = wall
+    return results
+
+
 def _worker(args):
     (crate, config, harnesses, lane, timeout, extra) = args
     td = os.path.join(C.scratch(), "kani_target_%s_%s_%d" % (crate, config, lane))
     out = []
-    for h in harnesses:
-        out.append(run_harness(crate, config, h, timeout, extra, td))
+    # chunks keep the command line short and bound the damage of a crashed invocation
+    for i in range(0, len(harnesses), 12):
+        out.extend(run_batch(crate, config, harnesses[i:i + 12], timeout, extra, td))
     return out
 
 
@@ -97,9 +174,17 @@ def run_many(crate, config, harnesses, lanes=None, timeout=600, extra=()):
     from . import pool
     lanes = lanes or min(len(harnesses), max(1, C.NCPU // 2))
     instantiate(crate, config)
+    # longest-processing-time-first: cost grows with the shape numbers in the harness name
+    def cost(h):
+        nums = [int(x) for x in re.findall(r"\d+", h.split("::")[-1])[1:]] or [1]
+        return 1 + max(nums) + 0.3 * sum(nums)
+    order = sorted(harnesses, key=cost, reverse=True)
     buckets = [[] for _ in range(lanes)]
-    for i, h in enumerate(harnesses):
-        buckets[i % lanes].append(h)
+    load = [0.0] * lanes
+    for h in order:
+        i = load.index(min(load))
+        buckets[i].append(h)
+        load[i] += cost(h)
     jobs = [(_worker, (crate, config, b, i, timeout, tuple(extra))) for i, b in enumerate(buckets) if b]
     res = []
     for r in pool.run_jobs(jobs, procs=len(jobs)):
@@ -107,15 +192,18 @@ def run_many(crate, config, harnesses, lanes=None, timeout=600, extra=()):
     return res
 
 
-def replay(crate, config, harness, timeout=900):
+def replay(crate, config, harness, timeout=900, extra=()):
     """Concrete playback: let Kani write the counterexample as a unit test into the scratch copy of the
     harness crate, then run that test natively (dev profile, and release) against the real crate.
     Returns (reproduced, generated test source, log tail)."""
     d = instantiate(crate, config)
     feats = [f for f in C.CONFIGS[config] if f in ("compact", "alloc")]
     fa = ["--features", ",".join(feats)] if feats else []
-    cmd = ["cargo", "kani", "--harness", harness, "-Z", "concrete-playback", "--concrete-playback=inplace"] + fa
-    code, out = C.run(cmd, cwd=d, timeout=timeout)
+    cmd = ["cargo", "kani", "--harness", harness, "-Z", "concrete-playback", "--concrete-playback=inplace"] + fa + list(extra)
+    try:
+        code, out = C.run(cmd, cwd=d, timeout=timeout)
+    except Exception as e:
+        return False, "", "playback generation failed: %s" % e
     # find generated tests
     tests = []
     src = ""
@@ -133,7 +221,10 @@ def replay(crate, config, harness, timeout=900):
     log = ""
     for extra in ([], ["--release"]):
         cmd = ["cargo", "kani", "playback", "-Z", "concrete-playback"] + fa + extra + ["--"] + tests[:1]
-        code, o = C.run(cmd, cwd=d, timeout=timeout)
+        try:
+            code, o = C.run(cmd, cwd=d, timeout=timeout)
+        except Exception as e:
+            o = "playback run failed: %s" % e
         log += o[-800:]
         if re.search(r"test result: FAILED|panicked at", o):
             reproduced = True
